@@ -4,7 +4,7 @@ from dataclasses import dataclass, field
 
 from mindsdb_sql.exceptions import PlanningException
 from mindsdb_sql.parser import ast
-from mindsdb_sql.parser.ast import (Select, Identifier, BetweenOperation, Join, Star, BinaryOperation, Constant,
+from mindsdb_sql.parser.ast import (Select, Identifier, BetweenOperation, Join, Star, BinaryOperation, Constant, UnaryOperation,
                                     NativeQuery, Parameter)
 from mindsdb_sql.planner.steps import (FetchDataframeStep, JoinStep, ApplyPredictorStep, SubSelectStep, QueryStep,
                                        MapReduceStep)
@@ -485,6 +485,10 @@ class PlanJoinTablesQuery:
         data_conditions = []
 
         def _check_conditions(node, **kwargs):
+            if isinstance(node, UnaryOperation):
+                # a negated condition is not a conjunct of equalities: nothing of it may be pushed
+                binary_ops.add(node.op.lower())
+                return
             if not isinstance(node, BinaryOperation):
                 return
 
